@@ -150,7 +150,12 @@ def rule_letters(fx, rep):
                         wt[kinds.get(pol)] = lit
     rep.sample({"rule": "C17-LETTERS", "reader_promotion": rt, "writer_promotion": wt})
     n += 1
+    undecided_l = 0
     good = set(rt) == set("nbrq") and len(set(rt.values())) == 4 and all(wt.get(k) == c for c, k in rt.items())
+    if not rt:
+        rep.notes.append(f"C17-LETTERS: the promotion reader `{rd.name}` is not a `match` on the character; not decided")
+        undecided_l += 1
+        good = True
     rep.obligation(good)
     if not good:
         bad("promotion", f"promotion letters: reader {rt}, printer {wt}; expected inverse bijections over n, b, r, q (lower case)", rd)
@@ -179,6 +184,7 @@ def rule_letters(fx, rep):
             rtab = lookup_reader(fx, rb, variants)
             if rtab is None:
                 rep.notes.append(f"C17-LETTERS: the {what} reader `{rb.name}` is neither a `match` on the character nor a constant lookup table; not decided")
+                undecided_l += 1
                 continue
         wtab = {}
         for conds, ret, bb in decision_paths(wb):
@@ -208,7 +214,7 @@ def rule_letters(fx, rep):
     rep.obligation(good)
     if not good:
         bad("triple-order", "uci_move does not build UciMove{src, dst, promotion} from the first, second and third parsed component", um)
-    rep.rule("C17-LETTERS", n, 5, ok, "move-text letter tables")
+    rep.rule("C17-LETTERS", n, 5 - undecided_l, ok, "move-text letter tables")
 
 
 def lookup_reader(fx, rb, variants):
@@ -424,6 +430,11 @@ def rule_match(fx, rep):
                 cb = fx.bodies.get(cl[0][1][len("closure:"):]) if cl else None
                 if cb is not None and any(isinstance(x, tuple) and len(x) >= 2 and x[0] == "arg" and x[1] == 1 for x in walk(it)):
                     called = {norm(callee_name(t2) or "").split("::")[-1] for _, t2 in cb.calls() if "moves::Move::" in norm(callee_name(t2) or "")}
+                    # ... or in a predicate method of Move the closure delegates to (`mv.is_matching(src, dst, promotion)`)
+                    for _, t2 in cb.calls():
+                        hb2 = fx.body(callee_name(t2)) if callee_name(t2) else None
+                        if hb2 is not None and "moves::Move::" in norm(hb2.name):
+                            called |= {norm(callee_name(t3) or "").split("::")[-1] for _, t3 in hb2.calls() if "moves::Move::" in norm(callee_name(t3) or "")}
                     missing = sorted({"src", "dst", "promotion"} - called)
                     if missing:
                         bad("guards", f"expect_matching searches the list with a predicate that never looks at {missing}", b, t.get("line"))
